@@ -98,8 +98,9 @@ KeyOf(key, g) == CASE key = "content" -> Pts(g)
                    [] OTHER           -> <<0>>
 MemoHit(v, s, g) == v.key # "none" /\ s.memo.k = KeyOf(v.key, g)
 \* full widths of the native cells an operation on grid g uses
+DW == [g \in 1..NG |-> DerivedW(Pts(g))]           \* (constant table)
 UsedW(v, s, g, wm) == IF wm = "explicit" THEN Grids[g].xw
-                      ELSE IF MemoHit(v, s, g) THEN s.memo.W ELSE DerivedW(Pts(g))
+                      ELSE IF MemoHit(v, s, g) THEN s.memo.W ELSE DW[g]
 
 Entry(N, tb, f) == IF B!WSum(N, tb) > 0 THEN [k |-> "num", v |-> B!Binned(N, tb, f)] ELSE [k |-> "zero"]
 FluxBinned(v, s, g, wm, f) ==
@@ -159,8 +160,9 @@ Res(v, s, op) ==
 
 SoundV(v) == v.key \in {"none", "content"} /\ v.conv = "copy"
 RefV(v)   == [kind |-> v.kind, key |-> "none", conv |-> "copy"]
-\* what a freshly built binner returns for the operation
-Fresh(v, op) == Res(RefV(v), FreshBs, op)
+\* what a freshly built binner returns for the operation (a constant table: TLC evaluates it once)
+FreshTab == [kind \in Kinds |-> [op \in Ops |-> Res([kind |-> kind, key |-> "none", conv |-> "copy"], FreshBs, op)]]
+Fresh(v, op) == FreshTab[v.kind][op]
 
 \* ------------------------------------------------------------ behaviours
 \* one design variant per behaviour; a memo exists in FluxBinner only, mutants one at a time
@@ -189,8 +191,7 @@ HoldNative == SoundV(V) => NativeUntouched
 \* one invariant per design mutant (expected counterexamples, reported together by TLC -continue)
 RefuteLength       == V.key = "length" => ResultEqualsFresh
 RefuteEnds         == V.key = "ends" => ResultEqualsFresh
-RefuteInplacePure  == V.conv = "inplace" => OpsArePure
-RefuteInplaceFresh == V.conv = "inplace" => ResultEqualsFresh
+RefuteInplace      == V.conv = "inplace" => OpsArePure /\ ResultEqualsFresh
 
 \* ------------------------------------------------------------ the alphabet is regular (checked once)
 \* every target bin is covered by every grid under both width modes; the cells ascend in both edges, the
